@@ -7,6 +7,14 @@ ALL = ["C%02d" % i for i in range(1, 21)]
 
 # id -> (technique, level text, level note, design section)
 CLAIMED = {
+ "C12": ("property-based testing of VelocityControl against an exact approvals ledger (window-sum oracle in u128), plus stateful generation on a real node and on VelocityApprover with restarts from the store",
+         "Held-on-N-sequences exploration; two genuine defects (controls reset by restart, fee control not persisted) were repaired by fix: commits and kept as regression replays.",
+         "Non-decreasing timestamps; on-chain fees capped at 150 sat per request.",
+         "C12"),
+ "C17": ("property-based testing with constructed tamper operators: round-trip and injectivity oracles over three authentication layers (LSS per-value tag, shared mutation-list tag in both implementations, nonce binding)",
+         "Held-on-N-cases exploration; the unframed-concatenation collisions (boundary move, merge/split) are genuine and listed as known findings by exact signature, all other tamper operators must be refused.",
+         "HMAC-SHA256/ChaCha20 trusted; versions < 2^63.",
+         "C17"),
  "C01": ("stateful property-based testing: generated request histories on a real channel (API level), ghost ledger of disclosed secrets vs independently verified accepted validations, restarts injected",
          "Held-on-N-histories exploration of the holder revocation state machine against an explicit ledger oracle; not a proof.",
          "Trusted: LDK commitment/HTLC transaction builders used for the reference transactions, libsecp256k1 verification.",
